@@ -70,6 +70,17 @@ def gen_cases(rng, tier, names=None, per=None):
             w = idle_of(name, ns)
             ins, regime, _ = make_inputs(rng, name, w + rng.randrange(12, 60), regime)
             cases.append((name, ns, fs, ins, regime))
+        # the smallest admissible parameters (period 1 and the like) and the other extreme combinations, always — not only when drawn
+        from c_runtime import PatternRng
+        for pat in (0, 1, 2):
+            try:
+                ns, fs = cfg(PatternRng(rng, pat), hi)
+            except Exception:
+                continue
+            ns, fs = list(ns), list(fs)
+            w = idle_of(name, ns)
+            ins, regime, _ = make_inputs(rng, name, w + rng.randrange(4, 40), rng.choice(['walk', 'zigzag', 'wide']))
+            cases.append((name, ns, fs, ins, regime))
         # long streams: anything an implementation does every so many values (re-summing a window, rebuilding a tree, refreshing
         # a cache) only shows on series much longer than any period
         for n in ([rng.choice([1100, 1300, 2100])] if tier == 'quick' else [1100, 2100, 4200, 9000]):
